@@ -1353,7 +1353,7 @@ class SubElementTextListProperty(_ElementListProperty):
         for val in py_value:
             child = etree.SubElement(node, self._sub_element_name)
             try:
-                child.text = val
+                child.text = val if isinstance(val, str) else str(val)  # e.g. int values
             except TypeError as ex:
                 # re-raise with better info about data
                 raise TypeError(f'{ex} in {self}') from ex  # noqa: EM102
